@@ -292,7 +292,20 @@ def c19_shift(sc, base, seed):
     tw["T"] = sc["T"] + k
     for e in tw["events"]:
         e["occ"] += k
-    b = run_records(tw)
+    if rng.random() < 0.4:
+        # the delay applied to Event objects already built, through the public `occurrence` setter
+        try:
+            evs = [scen.build_event(e) for e in sc["events"]]
+            for ev_ in evs:
+                ev_.occurrence = ev_.occurrence + k
+            simb = Simulation(scen.build_model(tw["table"], tw["model"]), n_temporal_units_to_sim=tw["T"])
+            for ev_ in evs:
+                simb.add_event(ev_)
+            b = run_records(tw, sim=simb)
+        except Exception as e:
+            b = {"error": f"{type(e).__name__}: {e}"}
+    else:
+        b = run_records(tw)
     if "error" in base or "error" in b:
         if ("error" in base) != ("error" in b):
             out.append(viol("C19", 0, f"shift by {k}: one run failed and the other did not", a=base.get("error"), b=b.get("error")))
@@ -419,3 +432,7 @@ def long_loop_c01(sc, base, seed):
     tw = copy.deepcopy(sc)
     tw["events"] = []
     return long_loop(tw, base, seed, pid="C01")
+
+
+def long_loop_c11(sc, base, seed):
+    return long_loop(sc, base, seed, pid="C11")
